@@ -18,6 +18,14 @@ TEXT = {
  "C11": ("Disconnect: L0 monitor C11 (no disconnect error while a handle of the other side surely existed during the whole call) plus L1 validation of histories with clone/drop of both flavours interleaved with blocked, buffered and in-flight operations.", "6 C11"),
  "C12": ("Handle counts: L0 monitor C12 plus L1 validation (exact sender_count/receiver_count/is_closed results under clone / clone_sync / clone_async / to_* / as_* / drop / close sequences and interleavings).", "6 C12"),
  "C13": ("Timed operations under a virtual clock advanced at arbitrary hook points: L0 monitor C13 (timeout never before the deadline, only the three outcome classes) plus L1 validation (all-or-nothing, value dropped once / handed back, nothing left in the waiting list) and stuck detection (a deadline that passed must be reported).", "6 C13"),
+ "C04": ("Payload integrity: TLC checks the hand-off protocol of Kanal.tla (a slot is read only after it was written and published; invariants Once / asserts on slot contents) and every real execution over all eight payload classes (zero-sized, over-aligned zero-sized, u8, u16, 4-byte, pointer-sized, 3-word, padded repr(C)) on forced transfer paths (buffer, into a blocked receiver's slot, out of a blocked sender's slot, refill, drain; sync / timed / async / stream waiters) is validated against the L0 monitor C04 and L1: every received value is bit-for-bit a value that was sent (checksum-tagged ids; all 256 u8 patterns, boundary and random u16 patterns).", "6 C04, 8"),
+ "C06": ("Progress: TLC checks NoStuck / LatestWoken / LockHolderRuns on Kanal.tla (spin, LOCKED->LOCKED_STARVATION, park with spurious returns, claim, wake, close, last-handle drop, both flavours) and SpinMutex liveness; on the real code a waiter is driven through its spin phase into park / pending, the releasing event arrives one phase later (peer of either flavour, drain, close from either side, last-handle drop; reported parallelism 1 and 16; spurious unparks), and an execution that ends with an operation stuck, or whose history the ideal channel cannot explain (completed by the epilogue close instead of by its peer, wrong waker woken), is a violation.", "6 C06"),
+ "C07": ("Hand-off memory safety: HBMonitor.tla (vector-clock happens-before over the orderings actually passed to the atomics, FastTrack-style race check on every non-atomic cell: payload slots, pointer cells, thread-handle cell, waker field; lifetime: the owner's return or drop is a write to its frame / future; waker reference counts) is run by TLC over the memory-event trace of every real execution, including a freeze sweep that stops the claiming thread before each of its hooks while parked owners are woken spuriously and run to their return. Kanal.tla's NoAccessToDeadSignal / ListedAreArmed are checked by TLC on the design.", "3.5, 6 C07"),
+ "C09": ("Interchangeable flavours: programs assigning sync / async independently to every endpoint, with to_sync / to_async / as_* views / clone_sync / clone_async conversions, validated against the union of the L0 monitors and against L1 (counts under conversions, cross-flavour hand-offs and wake-ups); TLC checks the mixed-flavour configuration of Kanal.tla.", "6 C09"),
+ "C14": ("Non-blocking operations: the hook-level monitor NonBlocking.tla (a try_ / drain_into call never parks and never waits on a signal of its own; a *_realtime call makes at most one lock attempt, never yields, and reports 'not done' when that attempt fails) is run by TLC over real traces, including runs where a peer is frozen at its k-th hook (possibly inside a critical section); truthfulness of the results is decided against L1; Kanal.tla invariants TryNeverWaits / LockHolderRuns by TLC.", "6 C14"),
+ "C15": ("Dropping futures: programs dropping send / receive futures and streams in every state (never polled, pending, claimed by a peer, completed) against peers of both flavours, plus ordered-waiter scenarios where a future in the middle of the waiting list is dropped; validated against the delivery and destruction clauses (L0 monitor C15) and L1 (cancelled entry leaves the list, other waiters keep their order, value delivered once or destroyed once).", "6 C15"),
+ "C16": ("Polling contract: programs with spurious polls and waker changes between polls (3 wakers), polls after completion and repeated waits on one stream; L0 monitor C16 (completed future panics, stream keeps reporting the end) and L1 (Pending only while incomplete or in flight, Ready value is the delivered one, the waker registered at completion is the one woken before the completing call returns) plus stuck detection for awaits; Kanal.tla LatestWoken by TLC.", "6 C16"),
+ "C17": ("The lock: SpinMutex.tla (mutual exclusion, lock returns only when held, try_lock is one step, release/acquire visibility as knowledge bits, progress under weak fairness) checked by TLC; hook-level traces of 2-4 real threads contending on kanal's RawMutexLock (reported parallelism 1 and 16, holder frozen at every hook) validated against SpinMutexTrace.tla (outcome and orderings of every compare_exchange / store) and HBMonitor.tla (accesses to the protected cell race-free).", "3.4, 6 C17"),
  "C18": ("The reference model is L1 (KanalAtomic.tla); TLC explores its single-process graph (MC_KanalAtomic_1p) and every single-thread call sequence up to the length bound over the full 58-call alphabet (both flavours, sends, receives, try_, zero-duration timed calls, single polls of futures and stream, clone/convert/drop, close, drain with different vectors, all observers) x capacities {0,1,2,unbounded} is executed on the real code and validated call by call against L1 (deterministic: any differing result or undocumented panic is rejected).", "6 C18"),
  "C19": ("drain_into: L1 validation of every drain result in real histories (vector = previous contents + buffer + blocked/pending senders oldest first, exact count, senders released with success, closed => nothing taken).", "6 C19"),
 }
